@@ -351,6 +351,114 @@ theorem run_once (g : G) (sched : List Tid) (h : OnceInv g.sh) :
     have h2 := ih (step g t) h1.1
     exact ⟨h2.1, Nat.le_trans h1.2 h2.2⟩
 
+/-! ### The exiter itself always finishes -/
+
+/-- The exiter is never blocked: each of its steps moves it to a strictly later stage of the exit
+sequence, until it has finished. -/
+theorem exiter_progress (g : G) (h : Inv g) (hf : g.exiter.finished = false) :
+    g.exiter.pc.stage < (step g .e).exiter.pc.stage := by
+  obtain ⟨hv, hs, hw, hset⟩ := h
+  obtain ⟨sh, ex, setters, ws⟩ := g
+  obtain ⟨pc, post, lateCalls⟩ := ex
+  simp only at hv hs hw hf
+  cases pc with
+  | set1 c =>
+    cases c <;> simp only [EPc.valid, Bool.false_eq_true, Bool.and_eq_true, beq_iff_eq, decide_eq_true_eq] at hv
+    case publish s =>
+      subst hv
+      have h0 := hs.s0 rfl
+      have : (decide (stStopping ≥ stStopping) && decide (sh.status < stStopping)) = true := by simp [h0]
+      simp only [step, stepExiter, stepSet, this, if_true]
+      simp [EPc.stage]
+    case unregPid s p => simp [step, stepExiter, stepSet, EPc.stage]
+    case unregName s p => simp [step, stepExiter, stepSet, EPc.stage]
+    case pgDemon s p => simp [step, stepExiter, stepSet, EPc.stage]
+    case pgLeave s p =>
+      obtain ⟨rfl, hp⟩ := hv
+      have : (stStopping == stStopped && decide (p < stStopped)) = false := by simp [stStopping, stStopped]
+      cases post <;> simp [step, stepExiter, stepSet, afterCleanup, this, EPc.stage]
+  | postStop => simp [step, stepExiter, EPc.stage]
+  | set2 c =>
+    cases c <;> simp only [EPc.valid, Bool.false_eq_true, Bool.and_eq_true, beq_iff_eq, decide_eq_true_eq] at hv
+    case publish s =>
+      subst hv
+      have h1 := hs.s1 (by simp [EPc.stage])
+      have e1 : (decide (stStopping ≥ stStopping) && decide (sh.status < stStopping)) = false := by
+        rw [Bool.and_eq_false_iff]; right
+        exact decide_eq_false (by simp only [stStopping, stStopped, EPc.stage] at *; omega)
+      have e2 : (stStopping == stStopped && decide (sh.status < stStopped)) = false := by simp [stStopping, stStopped]
+      simp only [step, stepExiter, stepSet, afterCleanup, e1, e2]
+      simp [EPc.stage]
+  | terminate => simp [step, stepExiter, EPc.stage]
+  | notifySup => simp [step, stepExiter, EPc.stage]
+  | unlink => simp [step, stepExiter, EPc.stage]
+  | stopped => simp [step, stepExiter, EPc.stage]
+  | set3 c =>
+    cases c <;> simp only [EPc.valid, Bool.false_eq_true, Bool.and_eq_true, beq_iff_eq, decide_eq_true_eq] at hv
+    case publish s =>
+      subst hv
+      have h1 := hs.s1 (by simp [EPc.stage])
+      have h2 := hs.s11 (by simp [EPc.stage])
+      have e1 : (decide (stStopped ≥ stStopping) && decide (sh.status < stStopping)) = false := by
+        rw [Bool.and_eq_false_iff]; right
+        exact decide_eq_false (by simp only [stStopping, stStopped, EPc.stage] at *; omega)
+      have e2 : (stStopped == stStopped && decide (sh.status < stStopped)) = true := by simp [h2]
+      simp only [step, stepExiter, stepSet, afterCleanup, e1, e2]
+      simp [EPc.stage]
+    case statusNotify => simp [step, stepExiter, stepSet, EPc.stage]
+    case notifyWaiters => simp [step, stepExiter, stepSet, EPc.stage]
+    case notifyOne =>
+      simp only [step, stepExiter, stepSet]
+      cases lateCalls <;> simp [lateEntry, EPc.stage]
+  | late c rest => simp [Exiter.finished] at hf
+  | done => simp [Exiter.finished] at hf
+
+
+theorem stage_finished {g : G} (h : g.exiter.pc.stage = 15) : (run g []).exiter.finished = true := by
+  show g.exiter.finished = true
+  obtain ⟨sh, ex, st, ws⟩ := g
+  obtain ⟨pc, post, lc⟩ := ex
+  simp only at h ⊢
+  cases pc <;> (try rename_i c; cases c) <;> simp [EPc.stage] at h <;> rfl
+
+theorem other_steps_keep_exiter (g : G) (tid : Tid) (h : tid ≠ .e) : (step g tid).exiter = g.exiter := by
+  cases tid with
+  | e => exact absurd rfl h
+  | s k => simp only [step]; split <;> rfl
+  | w k => simp only [step]; split <;> rfl
+  | abandon k =>
+    simp only [step]
+    split
+    · rfl
+    · split
+      · rfl
+      · rfl
+      · split <;> rfl
+
+/-- The exit sequence always completes: whatever else is scheduled in between, after 15 steps of
+the exiter it has finished (`notify_one` of the final `set_status(Stopped)` executed). -/
+theorem exiter_finishes (g : G) (sched : List Tid) (h : Inv g)
+    (hcount : 15 - g.exiter.pc.stage ≤ sched.count .e) : (run g sched).exiter.finished = true := by
+  induction sched generalizing g with
+  | nil =>
+    simp only [List.count_nil, Nat.le_zero_eq] at hcount
+    exact stage_finished (g := g) (by have := stage_le g.exiter.pc; omega)
+  | cons t l ih =>
+    simp only [run, List.foldl_cons]
+    by_cases ht : t = .e
+    · subst ht
+      simp only [List.count_cons_self] at hcount
+      apply ih (step g .e) (inv_step g _ h)
+      cases hf : g.exiter.finished
+      · have := exiter_progress g h hf; omega
+      · have h1 := finished_stage hf
+        have h2 := finished_stage (finished_step g .e hf)
+        omega
+    · have hc : (t :: l).count .e = l.count .e := by simp [ht]
+      apply ih (step g t) (inv_step g _ h)
+      rw [other_steps_keep_exiter g t ht]; omega
+
+
 /-! ### Initial states -/
 
 theorem initial_init (post : Bool) (late : List Nat) (setters : List (List Nat)) (n : Nat)
